@@ -27,7 +27,7 @@ import os
 import threading
 
 from .canon import canon_text
-from .model import Crash, UserError, version_tag
+from .model import USER_EXC, Crash, UserError, version_tag
 
 QUERY_KINDS = ['exists', 'is_file', 'is_dir', 'list_dir', 'walk', 'walk_bu', 'get_size', 'read_text',
                'read_binary', 'declare_read']
@@ -221,7 +221,7 @@ def run_block(ctx, b, inv, fname, args, stmts, obs, filename):
             ctx.record_trace(inv, q[1], q[2], a)
             run_block(ctx, b, inv, fname, args, th if a is True else el, obs, filename)
         elif op == 'raise':
-            e = UserError(fname)
+            e = USER_EXC[s[1] if len(s) > 1 else None](fname)
             ctx.raised_objs.append(e)
             raise e
         elif op == 'write':
